@@ -5,6 +5,7 @@
 //!   vh replay <module> <cases.ndjson>          spec -> impl
 //!   vh drive  <module> --seed S --n N --out F  impl -> spec (records a trace)
 mod certchain;
+mod cms;
 mod common;
 mod pki;
 mod der;
@@ -15,6 +16,7 @@ mod rfc1982;
 mod rrdp;
 mod rtrconn;
 mod rtrwire;
+mod sigobj;
 mod rtrsession;
 mod slurm;
 mod urialg;
@@ -44,6 +46,8 @@ fn main() {
         ("replay", "rrdp") => rrdp::replay(rest),
         ("replay", "manifest") => manifest::replay(rest),
         ("replay", "certchain") => certchain::replay(rest),
+        ("replay", "sigobj") => sigobj::replay(rest),
+        ("drive", "sigobj") => sigobj::drive(rest),
         ("drive", "certchain") => certchain::drive(rest),
         ("drive", "manifest") => manifest::drive(rest),
         ("drive", "rrdp") => rrdp::drive(rest),
